@@ -9,7 +9,7 @@ PROOF_MODULE = "Nlmodel.Proofs.C03"
 PROOF_FILES = ["Nlmodel/Proofs/C03.lean", "Nlmodel/Proofs/Lemmas/GCMark.lean", "Nlmodel/Proofs/Lemmas/GCReach.lean", "Nlmodel/Model/GC.lean"]
 THEOREM_FILE = PROOF_FILES[0]
 LEVEL_TEXT = ("Lean theorems about the collector model (mirror of gc.rs after its repair; mark = recursive descent through arrays with the already-marked test, sweep = release exactly the unmarked managed objects): with the fuel the collector supplies, the mark phase reaches EVERY managed object reachable from the roots through nested, aliased and cyclic arrays (measure: number of unmarked managed objects); after a collection every reachable managed object is still managed with identical contents and unmanaged objects are untouched; the managed list never holds an address twice across allocation, collection and hand-over, so no object is released twice. Tied to gc.rs by (i) collector operation sequences (allocate float/string/array, link into array incl. cycles, collect with a chosen root set, hand over, destroy) run on the REAL GC and on the model, comparing after every operation which objects are still allocated and which are managed - complete enumeration up to a length bound, random beyond; (ii) whole allocating programs: the number of objects kept and released by every collection of the real VM equals the model's; (iii) a shadow heap in object.rs that turns any use of a released box or a second release into a reported event. RUN LEVEL, ALL PROGRAMS: type soundness of the machine's values in every reachable state (TI.exec_wt over all instructions, ghost kind map) discharges the side conditions of the collector theorems, so C03_every_return_of_every_run_keeps_reachable holds at every collection point of every run with no hypothesis on the heap; and C03_no_dangling_reference: in every state a run of any program on a fresh machine passes through, every value the machine holds and every element of every unreleased array points to an unreleased cell, and every unreleased cell is managed (ND.exec_ok over all instructions, ND.post_gc for collections) - the model's form of 'no program ever observes a freed object'.")
-LEVEL_NOTE = ("Trusted: Lean kernel; the allocator (fresh addresses; reuse is below the model); that the VM passes all of its roots at each collection is checked by the per-collection correspondence and the shadow heap, the machine-level invariant 'every address the machine holds is live' is not yet a theorem (partial).")
+LEVEL_NOTE = ("Trusted: Lean kernel; the allocator (fresh addresses; reuse is below the model); that the VM passes all of its roots at each collection is checked by the per-collection correspondence and the shadow heap, the machine-level invariant 'no value the machine holds points to a released cell' IS a theorem for every reachable state of every program on a fresh machine (C03_no_dangling_reference); 'no object is released twice' is a theorem at the level of single frees: every free of every sweep and of the final drop hits a live cell of a duplicate-free list, in every reachable state, sessions included (C03_every_sweep_frees_live_cells, C03_managed_cells_are_live, Lemmas/Ledger.lean).")
 TECHNIQUE = "Lean 4 proof (mark completeness with cycles, collection preserves reachable, no double release) + collector op-sequence and per-collection correspondence with shadow heap"
 RULE = ("collector op sequences over a small object universe: complete enumeration up to length 4 (quick) / 5 (thorough) from a seeded prefix, "
         "random sequences up to length 14; allocating programs biased to nested/aliased/cyclic arrays and calls inside array literals and "
@@ -129,19 +129,28 @@ def root_matrix():
               "functie f() { stel t = [0.5 + 0.5]; zolang nee { } }", "functie f() { stel t = string(5); als nee { 1 } }"]
     alloc = ["6.0 * 7.0", "string(99)", "[8.5 - 0.5]"]
     out = []
-    for vi, v in enumerate(fresh):
-        for fi, f in enumerate(fkinds):
-            a = alloc[(vi + fi) % len(alloc)]
-            a2 = alloc[(vi + fi + 1) % len(alloc)]
-            out.append(("root-last", "%s;\n%s;\n%s;\nstel x = f();\nstel y = %s;\nstel z = %s;" % (f, "stel w = 0", v, a, a2)))
-            out.append(("root-last-fn", "%s;\nfunctie o() { %s; stel x = f(); stel y = %s }\no();" % (f, v, a)))
-            out.append(("root-global", "%s;\nstel g = %s;\nf();\nstel y = %s;\nstel z = %s;\ng" % (f, v, a, a2)))
-            out.append(("root-local", "%s;\nfunctie o() { stel l = %s; f(); stel y = %s; stel z = %s; l }\no()" % (f, v, a, a2)))
-            out.append(("root-param", "%s;\nfunctie o(p) { f(); stel y = %s; stel z = %s; p }\no(%s)" % (f, a, a2, v)))
-            out.append(("root-pending", "%s;\n[%s, f(), %s, %s]" % (f, v, a, a2)))
-            out.append(("root-argument", "%s;\nfunctie k(a, b, c) { [a, c] }\nk(%s, f(), %s)" % (f, v, a)))
-            out.append(("root-returned", "%s;\nfunctie r() { stel q = f(); %s }\n[r(), f(), %s]" % (f, v, a)))
-            out.append(("root-element", "%s;\nstel g = [0, [0]];\ng[1][0] = %s;\nf();\nstel y = %s;\ng" % (f, v, a)))
+    # DEPTH: the collecting call is made directly (`f()`: the collection runs while returning into the frame that holds the
+    # root) or through two intermediate functions (`m2()` -> `m1()` -> `f()`: the collections run while returning into
+    # frames ABOVE the one that holds the root, whose part of the stack lies below their base pointer)
+    deep = "functie m1() { stel q = f(); stel h = string(3); 0 }\nfunctie m2() { stel h = [0.25 + 0.25]; m1(); m1(); 0 }"
+    for depth, call, pre in (("", "f()", ""), ("-deep", "m2()", deep)):
+        for vi, v in enumerate(fresh):
+            for fi, f in enumerate(fkinds):
+                a = alloc[(vi + fi) % len(alloc)]
+                a2 = alloc[(vi + fi + 1) % len(alloc)]
+                f = f + ";\n" + pre if pre else f
+                c = call
+                out.append(("root-last" + depth, "%s;\n%s;\n%s;\nstel x = %s;\nstel y = %s;\nstel z = %s;" % (f, "stel w = 0", v, c, a, a2)))
+                out.append(("root-last-fn" + depth, "%s;\nfunctie o() { %s; stel x = %s; stel y = %s }\no();" % (f, v, c, a)))
+                out.append(("root-global" + depth, "%s;\nstel g = %s;\n%s;\nstel y = %s;\nstel z = %s;\ng" % (f, v, c, a, a2)))
+                out.append(("root-local" + depth, "%s;\nfunctie o() { stel l = %s; %s; stel y = %s; stel z = %s; l }\no()" % (f, v, c, a, a2)))
+                out.append(("root-param" + depth, "%s;\nfunctie o(p) { %s; stel y = %s; stel z = %s; p }\no(%s)" % (f, c, a, a2, v)))
+                out.append(("root-pending" + depth, "%s;\n[%s, %s, %s, %s]" % (f, v, c, a, a2)))
+                out.append(("root-pending-fn" + depth, "%s;\nfunctie o() { [%s, %s, %s, %s] }\n[%s, o(), %s]" % (f, v, c, a, a2, v, a)))
+                out.append(("root-argument" + depth, "%s;\nfunctie k(a, b, c) { [a, c] }\nk(%s, %s, %s)" % (f, v, c, a)))
+                out.append(("root-returned" + depth, "%s;\nfunctie r() { stel q = %s; %s }\n[r(), %s, %s]" % (f, c, v, c, a)))
+                out.append(("root-element" + depth, "%s;\nstel g = [0, [0]];\ng[1][0] = %s;\n%s;\nstel y = %s;\ng" % (f, v, c, a)))
+                out.append(("root-caller-chain" + depth, "%s;\nfunctie o1() { stel l1 = %s; stel r = o2(); [l1, r] }\nfunctie o2() { stel l2 = %s; %s; stel y = %s; [l2, y] }\n[%s, o1(), %s]" % (f, v, a, c, a2, v, a)))
     return out
 
 
